@@ -150,18 +150,13 @@ def run(ctx) -> None:
         r.ok("C11.R5", ap.qual, f"prefix = {short(pdefs[0], 80)}", ploc)
     else:
         r.violation("C11.R5", ap.qual, "prefix = '_filt_' + ...", "the injected prefix does not provably start with '_': rule selectors such as '1 of sel*'/'them' are only kept away from injected detections by the underscore rule", ploc)
-    # a colliding draw is drawn again: interpreted with a rule that already owns '_filt_xxxxxxxxxx_flt' and a random stand-in
-    # that returns x…x first and y…y afterwards
-    from ..tabulate import Raised
-    try:
-        rule_, filt_ = c02.interpret_filter_application(ctx, "flt", rule_detections={"sel": "D(sel)", "_filt_xxxxxxxxxx_flt": "D(own)"}, draws=("x", "y"))
-        dets = rule_.detection.detections
-        if dets.get("_filt_xxxxxxxxxx_flt") == "D(own)" and any(k != "_filt_xxxxxxxxxx_flt" and k.endswith("_flt") and v == "D(flt)" for k, v in dets.items()):
-            r.ok("C11.R5", ap.qual, "a drawn prefix that existing detection names start with is drawn again (the rule's detection survives, the filter's gets another name)", ploc)
-        else:
-            r.violation("C11.R5", ap.qual, "prefix collision", f"with a rule that owns a detection starting with the drawn prefix the detections become {dets}: the rule's own detection is overwritten by (or shares its name with) the filter's, so the rule's condition evaluates the filter's detection", ploc)
-    except Raised as ex:
-        r.violation("C11.R5", ap.qual, "prefix collision", f"interpretation raises {ex}", ploc)
+    # a colliding draw is drawn again: interpreted with rules that already own names starting with the drawn prefix and a
+    # random stand-in that returns x…x first and y…y afterwards (shared with C20.R4)
+    probs = c02.prefix_redraw_failures(ctx)
+    if probs:
+        r.violation("C11.R5", ap.qual, "prefix collision", probs[0] + (f" (+{len(probs) - 1} more scenario(s))" if len(probs) > 1 else ""), ploc)
+    else:
+        r.ok("C11.R5", ap.qual, "a drawn prefix that existing detection names start with is drawn again (same name: nothing overwritten; other name: nothing captured)", ploc)
     # storing detections + combination
     stores = [n for n in walk_no_nested(ap.node) if isinstance(n, ast.Assign) and any(isinstance(t, ast.Subscript) and unparse(t.value) == "rule.detection.detections" for t in n.targets)]
     # the same store written as detections.update({key: value for ...}) — (key, value) taken from the comprehension
@@ -330,6 +325,9 @@ def run(ctx) -> None:
             f.rule = "C11.R7"
     r.rule_counts["C11.R7"] = r.rule_counts.pop("C02.R4", 0)
     r.rule_text["C11.R7"] = "selector resolution keeps the two sides apart: " + r.rule_text.pop("C02.R4")
+    # which rules a filter names: the rule list is resolved through the collection's lookup (shared with C09.R6)
+    from . import c09
+    c09.r6_lookup_table(ctx, "C11.R8")
     for rid, n in (("C11.R1", 3), ("C11.R2", 2), ("C11.R3", 8), ("C11.R4", 1), ("C11.R5", 5), ("C11.R6", 4)):
         r.floor(rid, n)
 
